@@ -12,7 +12,8 @@ T0 = datetime(2020, 1, 1, tzinfo=UTC)
 
 
 def snapshot(db):
-    return [(p.time, p.measurement, dict(p.tags), dict(p.fields)) for p in db.all(sorted=False)]
+    nn = lambda v: "nan" if isinstance(v, float) and v != v else v            # nan is not == nan: compare it as a token
+    return [(p.time, p.measurement, dict(p.tags), {k: nn(v) for k, v in p.fields.items()}) for p in db.all(sorted=False)]
 
 
 def extremes(tf):
@@ -37,7 +38,34 @@ def extremes(tf):
         ("update with a callable returning a field value 10**400 for the later points",
          lambda db: db.update_all(fields=lambda f, _c=[0]: (_c.__setitem__(0, _c[0] + 1) or ({"b": big} if _c[0] >= 2 else {"b": 1})))),
     ]
+    def twice(db):
+        p = P(time=T0 + timedelta(seconds=58), tags={"e": "twice"}, fields={"v": 0})
+        db.insert(p)
+        db.insert(p)
+
+    def raising_late(db):
+        # a callable that fails at the LAST stored point, after every other point has been visited (and, in memory, changed and restored)
+        n = len(list(db))
+        c = [0]
+
+        def f(fields):
+            c[0] += 1
+            if c[0] >= n:
+                raise ZeroDivisionError("late")
+            return {"v": (fields.get("v") or 0) + 1, "w": c[0]}
+        return db.update_all(fields=f)
+    ops += [
+        ("insert one Point object twice", twice),
+        ("insert a tag value outside ASCII", lambda db: db.insert(P(time=T0 + timedelta(seconds=59), tags={"city": "Z\u00fcrich"}, fields={"a": 1}))),
+        ("insert a tag value holding the delimiter, a quote and a line break", lambda db: db.insert(P(time=T0 + timedelta(seconds=60), tags={"t": 'a,b"c\nd'}, fields={"a": 1}))),
+        ("insert a lone surrogate as a tag value", lambda db: db.insert(P(time=T0 + timedelta(seconds=61), tags={"t": "\ud800"}, fields={"a": 1}))),
+        ("insert text outside ASCII in a batch", lambda db: db.insert_multiple([P(time=T0 + timedelta(seconds=62), fields={"a": 1}),
+                                                                               P(time=T0 + timedelta(seconds=63), tags={"city": "K\u00f6ln"}),
+                                                                               P(time=T0 + timedelta(seconds=64), fields={"a": 2})])),
+        ("update every point to a tag value outside ASCII", lambda db: db.update_all(tags={"city": "Z\u00fcrich"})),
+    ]
     follow = [
+        ("an update whose callable raises at the last point", raising_late),
         ("an ordinary insert (earlier time)", lambda db: db.insert(P(time=T0 - timedelta(seconds=5), tags={"f": "1"}, fields={"a": 5}))),
         ("an ordinary insert (later time)", lambda db: db.insert(P(time=T0 + timedelta(seconds=500), tags={"f": "2"}, fields={"a": 6}))),
         ("a removal through the index", lambda db: db.remove(tf.TagQuery().f == "1")),
@@ -63,11 +91,14 @@ def direct(ck, tf):
     from tinyflux.storages import MemoryStorage
     ops, follow = extremes(tf)
     n = 0
-    for csv in (False, True):
+    import csv as _csv
+    # storage configurations under which writing a VALID point can itself fail (an encoding that cannot express the text, a dialect
+    # that cannot quote): the write raises inside storage, after validation
+    for csv, skw in ((False, {}), (True, {}), (True, {"encoding": "ascii"}), (True, {"quoting": _csv.QUOTE_NONE}), (True, {"encoding": "latin-1", "flush_on_insert": False})):
         for auto in (True, False):
             for desc, op in ops:
                 d = tempfile.mkdtemp(dir=str(ck.work))
-                db = tf.TinyFlux(os.path.join(d, "db.csv"), auto_index=auto) if csv else tf.TinyFlux(storage=MemoryStorage, auto_index=auto)
+                db = tf.TinyFlux(os.path.join(d, "db.csv"), auto_index=auto, **skw) if csv else tf.TinyFlux(storage=MemoryStorage, auto_index=auto)
                 try:
                     db.insert_multiple([tf.Point(time=T0 + timedelta(seconds=i), measurement="m", tags={"k": str(i)}, fields={"a": float(i)}) for i in range(3)])
                     for step_desc, step in [(desc, op)] + follow:
@@ -85,7 +116,7 @@ def direct(ck, tf):
                             after = snapshot(db)
                         except Exception as e:  # noqa
                             if raised:
-                                ck.violation({"kind": "failing-input", "config": {"csv": csv, "auto_index": auto}, "first_step": desc, "step": step_desc,
+                                ck.violation({"kind": "failing-input", "config": {"csv": csv, "auto_index": auto, "storage_kwargs": {k_: str(v_) for k_, v_ in skw.items()}}, "first_step": desc, "step": step_desc,
                                               "why": f"the call raised {raised}; afterwards the contents cannot be read any more ({type(e).__name__})"})
                             break
                         why = None
@@ -96,7 +127,7 @@ def direct(ck, tf):
                             if c:
                                 why = ("after the call raised, " if raised else "after the call, ") + c
                         if why:
-                            ck.violation({"kind": "failing-input", "config": {"csv": csv, "auto_index": auto}, "first_step": desc, "step": step_desc, "why": why})
+                            ck.violation({"kind": "failing-input", "config": {"csv": csv, "auto_index": auto, "storage_kwargs": {k_: str(v_) for k_, v_ in skw.items()}}, "first_step": desc, "step": step_desc, "why": why})
                             break
                 finally:
                     try:
